@@ -34,6 +34,10 @@ type mainCfg struct {
 	wfee  string // decimal, or "none": key absent
 	cfee  string
 	light bool // skip the read-API comparison after every block (exhaustive family)
+	// cn: size of the CHAIN's committee (default 1). In Notary mode cheque / setConfig / alphabetUpdate ask for the
+	// 2cn/3+1 multisignature of neo.GetCommittee() (`cmt`); the cn/2+1 committee majority (`maj`) is another account
+	// for every cn outside {1, 2, 4} and is no Alphabet approval
+	cn int
 }
 
 func (m mainCfg) attrs() []string {
@@ -45,6 +49,9 @@ func (m mainCfg) attrs() []string {
 	if m.light {
 		out = append(out, "light=1")
 	}
+	if m.cn > 1 {
+		out = append(out, fmt.Sprintf("cn=%d", m.cn))
+	}
 	return out
 }
 
@@ -54,6 +61,9 @@ func parseMainCfg(attr map[string]string) mainCfg {
 		n = 1
 	}
 	m := mainCfg{nd: attr["nd"] == "1", n: n, wfee: attr["wfee"], cfee: attr["cfee"], light: attr["light"] == "1"}
+	if cn, _ := strconv.Atoi(attr["cn"]); cn > 1 && cn <= 7 {
+		m.cn = cn
+	}
 	if m.wfee == "" {
 		m.wfee = "7"
 	}
@@ -100,7 +110,11 @@ type mainWorld struct {
 }
 
 func newMain(t testing.TB, run *hx.Run, mc mainCfg) *mainWorld {
-	c := chainx.New(t, 1)
+	cn := mc.cn
+	if cn < 1 {
+		cn = 1
+	}
+	c := chainx.New(t, cn)
 	w := &mainWorld{t: t, run: run, c: c, cfg: mc}
 	w.act.t = t
 	for i := 0; i < maxAlpha; i++ {
@@ -141,8 +155,14 @@ func newMain(t testing.TB, run *hx.Run, mc mainCfg) *mainWorld {
 	w.act.add("proc", nil, nil, pr.Hash)
 	w.act.add("probe", nil, nil, pb.Hash)
 	w.act.add("cmt", c.Alpha, nil, c.Alpha.ScriptHash())
+	// the committee-majority account cn/2+1 of the SAME key set (the chain's committee): not the Alphabet account
+	// unless both thresholds coincide (cn = 1, 2, 4)
+	w.act.add("maj", c.Cmt, nil, c.Cmt.ScriptHash())
 	sa := chainx.MultisigOf(mc.n*2/3+1, ks)
 	w.act.add("saddr", sa, nil, sa.ScriptHash())
+	// the n/2+1 account of the stored keys as deployed (candidate removal asks for their 2n/3+1 account `saddr`)
+	sm := chainx.MultisigOf(mc.n/2+1, ks)
+	w.act.add("smaj", sm, nil, sm.ScriptHash())
 	for _, tg := range []string{"self", "proc", "U0", "U1", "U2", "K0", "K1", "K2", "S0", "A0", "A1", "A2", "A3", "A4", "A5", "A6"} {
 		w.tracked = append(w.tracked, w.act.byTag[tg])
 	}
